@@ -177,3 +177,171 @@ package datatypes
 //@   ensures[error-reply-changes-nothing] old(ppp.GetPushPullPackOption().HasErrorBit()) ==> its.checkPoint.Sseq == old(its.checkPoint.Sseq) && its.checkPoint.Cseq == old(its.checkPoint.Cseq) && len(its.localBuffer) == old(len(its.localBuffer)) && its.opID.Seq == old(its.opID.Seq) && G.receiveCalls == old(G.receiveCalls) && its.state == old(its.state)
 //@   ensures[plain-reply-applied-once] !old(ppp.GetPushPullPackOption().HasErrorBit()) && !old(ppp.GetPushPullPackOption().HasSubscribeBit()) ==> G.receiveCalls == old(G.receiveCalls) + 1
 //@   modifies *
+
+// ---------------------------------------------------------------------------------------
+// operation identifiers: gapless numbering and causality (C15), local/remote execution
+// ---------------------------------------------------------------------------------------
+
+//@ pred baseWF(b *BaseDatatype) = b.opID != nil && b.Datatype != nil && b.ctx != nil
+//@ pred idRoom(b *BaseDatatype) = b.opID.Lamport < 4611686018427387904 && b.opID.Seq < 4611686018427387904
+
+// executeLocalBase: a local operation consumes the next identifier; if the datatype refuses the
+// operation the identifier is given back, so the client's numbering stays 1,2,3,... (C15, C03).
+//@ func (*BaseDatatype).executeLocalBase
+//@   mode wrap
+//@   props C15 C03 C09
+//@   requires baseWF(its) && op != nil
+//@   ensures[id-consumed-iff-accepted] old(idRoom(its)) ==> its.opID == old(its.opID) && its.opID.Seq == old(its.opID.Seq) + (result1 == nil ? 1 : 0) && its.opID.Lamport == old(its.opID.Lamport) + (result1 == nil ? 1 : 0)
+//@   ensures[op-gets-the-new-id] result1 == nil ==> op.GetID() != nil && op.GetID() != its.opID && op.GetID().Seq == its.opID.Seq && op.GetID().Lamport == its.opID.Lamport && op.GetID().CUID == its.opID.CUID && op.GetID().Era == its.opID.Era
+//@   ensures[new-op-after-everything-seen] old(idRoom(its)) && result1 == nil ==> op.GetID().Lamport > old(its.opID.Lamport)
+//@   ensures[same-id-object] its.opID == old(its.opID)
+//@   ensures[op-has-id] op.GetID() != nil
+//@   modifies @iface.Datatype.ExecuteLocal, model.OperationID.Seq, model.OperationID.Lamport, @operations.opIDFootprint @ op
+
+// executeRemoteBase: the local clock moves past the remote operation's clock (causality, C15).
+//@ func (*BaseDatatype).executeRemoteBase
+//@   mode wrap
+//@   props C15
+//@   requires baseWF(its) && op != nil && op.GetID() != nil
+//@   ensures[clock-not-behind-remote] old(op.GetID() != its.opID && idRoom(its) && op.GetID().Lamport < 4611686018427387904) ==> its.opID.Lamport >= old(op.GetID().Lamport) && its.opID.Lamport >= old(its.opID.Lamport)
+//@   ensures[seq-untouched] its.opID == old(its.opID) && its.opID.Seq == old(its.opID.Seq)
+//@   modifies @iface.Datatype.ExecuteLocal, model.OperationID.Lamport
+
+// Replay: re-executes a recorded operation as local or remote according to its author (used by
+// rollback); a remote one must resynchronise the clock exactly as the first delivery did.
+//@ func (*BaseDatatype).Replay
+//@   mode wrap
+//@   props C15 C09
+//@   requires baseWF(its) && op != nil && op.GetID() != nil
+//@   ensures[remote-resyncs-clock] old(op.GetID().CUID != its.opID.CUID && op.GetID() != its.opID && idRoom(its) && op.GetID().Lamport < 4611686018427387904) ==> its.opID.Lamport >= old(op.GetID().Lamport) && its.opID.Lamport >= old(its.opID.Lamport) && its.opID.Seq == old(its.opID.Seq)
+//@   ensures[local-renumbers] old(op.GetID().CUID == its.opID.CUID && idRoom(its)) && result == nil ==> its.opID.Seq == old(its.opID.Seq) + 1
+//@   ensures[same-id-object] its.opID == old(its.opID)
+//@   ensures[op-has-id] op.GetID() != nil
+//@   modifies @iface.Datatype.ExecuteLocal, model.OperationID.Seq, model.OperationID.Lamport, @operations.opIDFootprint @ op
+
+// ---------------------------------------------------------------------------------------
+// transactions (C09)
+// ---------------------------------------------------------------------------------------
+
+//@ pred opsIDed(ops []iface.Operation) = forall o in ops :: o != nil && o.GetID() != nil
+//@ pred txWF(t *TransactionDatatype) = t.BaseDatatype != nil && baseWF(t.BaseDatatype) && t.mutex != nil && (t.isLocked == sel(G.held, t.mutex)) && (t.isLocked ==> t.txCtx != nil) && (!t.isLocked ==> t.success) && opsIDed(t.rollbackOps)
+
+// BeginTransaction: re-entering the running transaction is a no-op; otherwise the datatype is
+// locked and a fresh context starts, carrying the transaction marker when one is requested.
+//@ func (*TransactionDatatype).BeginTransaction
+//@   mode wrap
+//@   props C09
+//@   requires txWF(its) && (txCtx != nil ==> allocated(txCtx))
+//@   requires[not-nested] !(its.isLocked && its.txCtx == txCtx) ==> !its.isLocked
+//@   ensures[reentrant-noop] old(its.isLocked && its.txCtx == txCtx) ==> result == nil && its.txCtx == old(its.txCtx) && its.isLocked && its.opID == old(its.opID) && its.opID.Seq == old(its.opID.Seq) && its.opID.Lamport == old(its.opID.Lamport) && len(its.txCtx.opBuffer) == old(len(its.txCtx.opBuffer))
+//@   ensures[begins] !old(its.isLocked && its.txCtx == txCtx) ==> result != nil && fresh(result) && its.txCtx == result && its.isLocked && sel(G.held, its.mutex) && len(result.opBuffer) == (newTxnOp ? 1 : 0)
+//@   ensures[marker-consumes-an-id] old(idRoom(its.BaseDatatype)) && !old(its.isLocked && its.txCtx == txCtx) ==> its.opID == old(its.opID) && its.opID.Seq == old(its.opID.Seq) + (newTxnOp ? 1 : 0) && its.opID.Lamport == old(its.opID.Lamport) + (newTxnOp ? 1 : 0)
+//@   ensures[marker-is-a-transaction-op] !old(its.isLocked && its.txCtx == txCtx) && newTxnOp ==> result.opBuffer[0].(*operations.TransactionOperation)
+//@   ensures[wf] txWF(its) && its.success == old(its.success) && len(its.rollbackOps) == old(len(its.rollbackOps))
+//@   modifies TransactionDatatype.txCtx, TransactionDatatype.isLocked, model.OperationID.Seq, model.OperationID.Lamport, G:held
+
+//@ func (*TransactionDatatype).unlock
+//@   mode wrap
+//@   props C09
+//@   requires its.mutex != nil && (its.isLocked == sel(G.held, its.mutex))
+//@   ensures[released] !its.isLocked && !sel(G.held, its.mutex) && (old(its.isLocked) ==> its.txCtx == nil && its.success)
+//@   ensures[noop-when-free] !old(its.isLocked) ==> its.txCtx == old(its.txCtx) && its.success == old(its.success)
+//@   modifies TransactionDatatype.txCtx, TransactionDatatype.success, TransactionDatatype.isLocked, G:held
+
+// rollbackSound(): importing the meta/snapshot bytes that the same datatype exported, and
+// replaying operations it had accepted before, succeeds. This is C10's round-trip property used
+// as an explicit hypothesis; every function that can trigger a rollback carries it as `requires`.
+//@ function rollbackSound() bool
+
+// Rollback restores the state saved at the last commit point, replays what was committed since
+// and makes the result the new commit point: afterwards nothing is left to replay.
+//@ func (*TransactionDatatype).Rollback
+//@   mode wrap
+//@   props C09 C03
+//@   requires txWF(its) && its.txCtx != nil
+//@   loop 0 invariant[self] its.txCtx == old(its.txCtx) && its.isLocked == old(its.isLocked) && its.mutex == old(its.mutex) && its.BaseDatatype == old(its.BaseDatatype) && baseWF(its.BaseDatatype)
+//@   loop 0 invariant[ops] opsIDed(its.rollbackOps) && sameSlice(its.rollbackOps, old(its.rollbackOps))
+//@   ensures[replay-list-emptied] result == nil ==> len(its.rollbackOps) == 0
+//@   ensures[tx-kept] its.txCtx == old(its.txCtx) && its.isLocked == old(its.isLocked) && its.mutex == old(its.mutex)
+//@   ensures[base-wf] baseWF(its.BaseDatatype)
+//@   assumes[rollback-succeeds] rollbackSound() ==> result == nil
+//@   modifies @iface.Datatype.SetMetaAndSnapshot, @(*BaseDatatype).Replay, TransactionDatatype.rollbackMeta, TransactionDatatype.rollbackSnapshot, TransactionDatatype.rollbackOps, G:lastMarshaled
+
+// EndTransaction: the owner of the running transaction commits or rolls back, and unlocks.
+// A committed unit announces its own length, is recorded for later rollbacks whether it came
+// from a local call or from a remote delivery, and is handed on exactly when it is local.
+//@ func (*TransactionDatatype).EndTransaction
+//@   mode wrap
+//@   props C09
+//@   requires txWF(its) && (txCtx != nil ==> allocated(txCtx)) && rollbackSound()
+//@   requires[owner-is-locked] txCtx == its.txCtx ==> its.isLocked
+//@   requires[marker-first] txCtx == its.txCtx && its.success && withOp ==> len(its.txCtx.opBuffer) >= 1 && its.txCtx.opBuffer[0] != nil
+//@   requires[unit-has-ids] txCtx == its.txCtx ==> opsIDed(its.txCtx.opBuffer)
+//@   ensures[not-the-owner-noop] txCtx != old(its.txCtx) ==> result == nil && its.txCtx == old(its.txCtx) && its.isLocked == old(its.isLocked) && len(its.rollbackOps) == old(len(its.rollbackOps)) && G.deliverCalls == old(G.deliverCalls)
+//@   ensures[not-the-owner-keeps-unit] txCtx != old(its.txCtx) && its.txCtx != nil && old(opsIDed(its.txCtx.opBuffer)) ==> opsIDed(its.txCtx.opBuffer) && len(its.txCtx.opBuffer) == old(len(its.txCtx.opBuffer))
+//@   ensures[unlocked-afterwards] txCtx == old(its.txCtx) ==> !its.isLocked && !sel(G.held, its.mutex)
+//@   ensures[unit-recorded-for-rollback] txCtx == old(its.txCtx) && old(its.success) && result == nil ==> len(its.rollbackOps) == old(len(its.rollbackOps)) + old(len(its.txCtx.opBuffer))
+//@   ensures[handed-on-iff-local] txCtx == old(its.txCtx) && old(its.success) && result == nil ==> G.deliverCalls == old(G.deliverCalls) + (isLocal ? 1 : 0) && (isLocal ==> G.lastDelivered == old(len(its.txCtx.opBuffer)))
+//@   ensures[announces-its-length] txCtx == old(its.txCtx) && old(its.success) && withOp && result == nil ==> old(its.txCtx.opBuffer)[0].(*operations.TransactionOperation).Body.(*operations.TransactionBody).NumOfOps == int32(old(len(its.txCtx.opBuffer)))
+//@   ensures[rollback-hands-nothing-on] txCtx == old(its.txCtx) && !old(its.success) ==> G.deliverCalls == old(G.deliverCalls)
+//@   ensures[fails-only-without-marker] result != nil ==> !old(its.txCtx.opBuffer)[0].(*operations.TransactionOperation)
+//@   ensures[only-a-missing-marker-fails] result != nil ==> withOp && txCtx == old(its.txCtx) && old(its.success)
+//@   ensures[commit-keeps-ids] txCtx != old(its.txCtx) || old(its.success) ==> its.opID == old(its.opID) && its.opID.Seq == old(its.opID.Seq) && its.opID.Lamport == old(its.opID.Lamport)
+//@   ensures[wf-ops] opsIDed(its.rollbackOps)
+//@   ensures[wf-base] its.BaseDatatype != nil && baseWF(its.BaseDatatype) && its.mutex != nil
+//@   ensures[wf-lock] its.isLocked == sel(G.held, its.mutex)
+//@   ensures[wf-ctx] its.isLocked ==> its.txCtx != nil
+//@   ensures[wf-success] !its.isLocked ==> its.success
+//@   modifies TransactionDatatype.txCtx, TransactionDatatype.success, TransactionDatatype.isLocked, G:held, operations.TransactionBody.NumOfOps, @iface.Datatype.DeliverTransaction, @(*TransactionDatatype).Rollback
+
+// SentenceInTx: one operation, executed inside the running transaction or inside a one-operation
+// unit of its own. A local operation the datatype refuses is not recorded anywhere: not in the
+// unit, not in the operations awaiting push, and its identifier is given back (C03, C09, C15).
+//@ func (*TransactionDatatype).SentenceInTx
+//@   mode wrap
+//@   props C09 C03 C15
+//@   requires txWF(its) && op != nil && (ctx != nil ==> allocated(ctx)) && rollbackSound()
+//@   requires[not-nested] !(its.isLocked && its.txCtx == ctx) ==> !its.isLocked
+//@   requires[remote-has-id] !isLocal ==> op.GetID() != nil
+//@   requires[unit-so-far] its.isLocked && its.txCtx == ctx ==> opsIDed(its.txCtx.opBuffer)
+//@   replay-input locked0 = its.isLocked
+//@   replay-input sameCtx = its.txCtx == ctx
+//@   replay-input success0 = its.success
+//@   ensures[in-running-transaction] old(its.isLocked && its.txCtx == ctx) ==> its.txCtx == old(its.txCtx) && its.isLocked && len(its.txCtx.opBuffer) == old(len(its.txCtx.opBuffer)) + (result1 == nil ? 1 : 0) && G.deliverCalls == old(G.deliverCalls)
+//@   ensures[unit-keeps-ids] old(its.isLocked && its.txCtx == ctx) ==> opsIDed(its.txCtx.opBuffer)
+//@   ensures[own-unit-delivered] !old(its.isLocked && its.txCtx == ctx) && isLocal ==> !its.isLocked && G.deliverCalls == old(G.deliverCalls) + 1 && G.lastDelivered == (result1 == nil ? 1 : 0)
+//@   ensures[own-remote-unit-not-delivered] !old(its.isLocked && its.txCtx == ctx) && !isLocal ==> !its.isLocked && G.deliverCalls == old(G.deliverCalls) && len(its.rollbackOps) == old(len(its.rollbackOps)) + 1
+//@   ensures[refused-gives-the-id-back] old(idRoom(its.BaseDatatype)) && isLocal && result1 != nil ==> its.opID.Seq == old(its.opID.Seq) && its.opID.Lamport == old(its.opID.Lamport)
+//@   ensures[accepted-consumes-one-id] old(idRoom(its.BaseDatatype)) && isLocal && result1 == nil ==> its.opID.Seq == old(its.opID.Seq) + 1
+//@   ensures[wf] txWF(its)
+//@   modifies @(*TransactionDatatype).BeginTransaction, @(*TransactionDatatype).EndTransaction, @(*BaseDatatype).executeLocalBase, TransactionContext.opBuffer
+
+// ghost: number of operations executed through SentenceInTx for remote units
+//@ ghost field G.sentences mathint
+
+// DoTransaction: runs the user's body inside one unit. The body is arbitrary client code; what is
+// assumed about it (callback-ensures) is what SentenceInTx guarantees for calls made inside the
+// running transaction: the transaction stays open and locked, the unit only grows by operations
+// that have identifiers, the marker stays first. When the body reports an error the unit is
+// rolled back and nothing is handed on; otherwise the whole unit is committed and handed on once.
+//@ func (*TransactionDatatype).DoTransaction
+//@   mode wrap
+//@   props C09
+//@   requires txWF(its) && !its.isLocked && rollbackSound() && (currentTxCtx != nil ==> allocated(currentTxCtx)) && currentTxCtx != its.txCtx
+//@   callback-ensures funcWithCloneDatatype: txWF(its) && its.isLocked && its.txCtx == old(its.txCtx) && its.success == old(its.success) && opsIDed(its.txCtx.opBuffer) && len(its.txCtx.opBuffer) >= old(len(its.txCtx.opBuffer)) && sameFirst(its.txCtx.opBuffer, old(its.txCtx.opBuffer)) && G.deliverCalls == old(G.deliverCalls) && len(its.rollbackOps) == old(len(its.rollbackOps))
+//@   ensures[always-unlocked] !its.isLocked && !sel(G.held, its.mutex)
+//@   ensures[failed-body-hands-nothing-on] result != nil ==> G.deliverCalls == old(G.deliverCalls)
+//@   ensures[committed-unit-handed-on-once] result == nil ==> G.deliverCalls == old(G.deliverCalls) + 1 && G.lastDelivered >= 1
+//@   modifies *
+
+// ExecuteRemoteTransactionWithCtx: a unit received from the server is applied as a whole: a unit
+// of more than one operation must start with a transaction marker announcing exactly its length,
+// otherwise nothing of it is executed (C09).
+//@ func (*TransactionDatatype).ExecuteRemoteTransactionWithCtx
+//@   mode wrap
+//@   props C09
+//@   requires txWF(its) && !its.isLocked && rollbackSound() && opsWF(transaction) && (currentTxCtx != nil ==> allocated(currentTxCtx)) && currentTxCtx != its.txCtx
+//@   loop 0 invariant[state] txWF(its) && rollbackSound() && (len(old(transaction)) > 1 ? its.isLocked && its.txCtx == txCtx && opsIDed(its.txCtx.opBuffer) : !its.isLocked)
+//@   ensures[unit-without-marker-refused] len(transaction) > 1 && old(transaction[0].OpType) != model.TypeOfOperation_TRANSACTION ==> result1 != nil && len(its.rollbackOps) == old(len(its.rollbackOps))
+//@   ensures[always-unlocked] !its.isLocked
+//@   modifies *
